@@ -8,6 +8,7 @@
 -/
 import KiraModel.Proofs.TransportLemmas
 import KiraModel.Proofs.StaticLemmas
+import KiraModel.Proofs.LifecycleLemmas
 
 namespace K
 open Transport
@@ -117,7 +118,7 @@ theorem C04_transport_step_inv (t : Transport) (n : Nat) (op : TOp) (hv : t.Vali
       cases hl : t.loopRegion with
       | none =>
         refine ⟨_, seekTo_noLoop t p n hl, ?_, ?_⟩
-        · simpa [ValidLoop, hl] using hv
+        · simp [ValidLoop, hl]
         · simp [Inside, hpl]
       | some r =>
         obtain ⟨ls, le⟩ := r
@@ -340,5 +341,200 @@ theorem C04_rate1_identity (fuel : Nat) (hfuel : 2 ≤ fuel) (d : StaticSoundDat
   rw [StaticSound.pushedFrame_eq sj hdj.1]
   unfold StaticSound.sourceAt StaticSound.nFrames StaticSound.sliceStart
   rw [hscj.slice, hscj.frames]
+
+/-- **then it ends**: Stopped is reported after the interpolator's window has drained — exactly 4
+    position steps after the transport ended (forwards: `max (n − p) 1` steps from play head `p`), not
+    earlier, not later.  (The reverse direction is `C03_finite_sound_stops_backward`.) -/
+theorem C04_ends_after_drain (s : StaticSound ℝ) (hs : s.SliceOk) (hp : s.transport.playing = true)
+    (hl : s.transport.loopRegion = none) (hbw : s.isPlayingBackwards = false) :
+    (∃ s', StaticSound.updN (max (s.nFrames - s.transport.position) 1 + 4) s = .ok s' ∧ s'.IsStopped)
+      ∧ ∀ j, j < max (s.nFrames - s.transport.position) 1 + 4 →
+          ∃ sj, StaticSound.updN j s = .ok sj ∧ sj.core = s.core :=
+  StaticSound.forward_ends _ s hs hp hl hbw rfl
+
+/-- **the window never holds a foreign frame, for every history**: starting from a window of slice
+    frames / silence (e.g. a new sound), after *any* sequence of handle commands (seeks, loop-region
+    changes, …), `on_start_processing` and `process` calls, every frame in the interpolator's window is
+    silence or a data frame from inside the slice — so the output is always an interpolation of slice
+    frames only. -/
+theorem C04_window_stays_inside_slice (fuel : Nat) (ops : List (StaticSound.Op ℝ)) (s s' : StaticSound ℝ)
+    (outs : List (Frame ℝ)) (hs : s.SliceOk) (hw : s.WinOk) (h : s.run fuel ops = .ok (s', outs)) :
+    s'.WinOk ∧ s'.frames = s.frames ∧ s'.slice = s.slice := by
+  have he := StaticSound.run_evolves fuel ops s s' outs h
+  exact ⟨he.win hs hw, he.frames, he.slice⟩
+
+/-- a new sound's window is empty (all silence). -/
+theorem C04_new_window (i : Nat) (s : StaticSound ℝ) (h : s.resampler = Resampler.new i) : s.WinOk := by
+  unfold StaticSound.WinOk StaticSound.FromSlice
+  rw [h]; simp [Resampler.new]
+
+/-! ### seeking and the reported position -/
+
+/-- the loop-wrapped landing index of a seek to frame `idx` -/
+def seekLanding (t : Transport) (idx : Nat) : Nat :=
+  match t.loopRegion with
+  | some (ls, le) => if t.position < idx then wrapDownCF idx ls le else wrapUpCF idx ls ls le
+  | none => idx
+
+/-- **seeks land**: `seek_to(x)` moves the play head to the loop-wrapped `⌊x·sr⌋` (0 for negative `x`):
+    the index itself without a loop or when it lies inside the loop region, otherwise the index moved
+    by whole loop lengths into the region; nothing else changes except that, while the sound is
+    advancing, the frame at the landing position is pushed into the window at once. -/
+theorem C04_seek_lands (s : StaticSound ℝ) (hd : s.InDomain) (x : ℝ) :
+    ∃ s', s.seekTo x = .ok s' ∧ s'.transport.position = seekLanding s.transport ⌊x * (s.sampleRate : ℝ)⌋₊
+      ∧ s'.transport.loopRegion = s.transport.loopRegion ∧ s'.core = s.core
+      ∧ (s.core.psm.playbackState.isAdvancing = true → s'.resampler.f3.frameIndex = s'.transport.position
+          ∧ s'.resampler.f2 = s.resampler.f3)
+      ∧ (s.core.psm.playbackState.isAdvancing = false → s'.resampler = s.resampler) := by
+  obtain ⟨hs, hv⟩ := hd
+  unfold StaticSound.seekTo StaticSound.seekToIndex
+  simp only [StaticSound.numFrames_ok s hs, toNatSat_real, ofNat_real]
+  set idx := ⌊x * (s.sampleRate : ℝ)⌋₊
+  have hseek : ∃ t', s.transport.seekTo idx s.nFrames = .ok t' ∧ t'.position = seekLanding s.transport idx
+      ∧ t'.loopRegion = s.transport.loopRegion := by
+    unfold seekLanding
+    cases hl : s.transport.loopRegion with
+    | none => exact ⟨_, seekTo_noLoop _ idx _ hl, rfl, by simp [hl]⟩
+    | some r =>
+      obtain ⟨ls, le⟩ := r
+      have hv' : ls < le ∧ le ≤ s.nFrames := by simpa [ValidLoop, hl] using hv
+      exact ⟨_, seekTo_loop _ idx _ ls le hl hv'.1, rfl, by simp [hl]⟩
+  obtain ⟨t', ht, hpos, hlr⟩ := hseek
+  simp only [ht]
+  by_cases hadv : s.core.psm.playbackState.isAdvancing = true
+  · simp only [hadv, if_true]
+    obtain ⟨s1, h1⟩ := StaticSound.pushFrame_total { s with transport := t' } hs
+    obtain ⟨fo, hfo⟩ := StaticSound.pushFrame_shape _ s1 h1
+    refine ⟨s1, h1, by rw [hfo]; exact hpos, by rw [hfo]; exact hlr, by rw [hfo], fun _ => ?_, fun h => ?_⟩
+    · rw [hfo]; exact ⟨rfl, rfl⟩
+    · cases h
+  · have hadv' : s.core.psm.playbackState.isAdvancing = false := by simpa using hadv
+    simp only [hadv']
+    refine ⟨_, rfl, hpos, hlr, rfl, ?_, ?_⟩
+    · intro h; exact absurd h (by simp)
+    · intro _; rfl
+
+/-- an index inside a valid loop region (or any index without a loop) is its own landing position. -/
+theorem C04_seek_lands_inside (t : Transport) (idx : Nat)
+    (h : match t.loopRegion with | some (ls, le) => ls ≤ idx ∧ idx < le | none => True) :
+    seekLanding t idx = idx := by
+  unfold seekLanding
+  cases hl : t.loopRegion with
+  | none => rfl
+  | some r =>
+    obtain ⟨ls, le⟩ := r
+    simp only [hl] at h ⊢
+    split
+    · simp [wrapDownCF, h.2]
+    · simp [wrapUpCF, h.1]
+
+/-- `seek_by(d)` is `seek_to(position/sr + d)`: it lands on the loop-wrapped `⌊position + d·sr⌋`. -/
+theorem C04_seek_by (s : StaticSound ℝ) (d : ℝ) (hsr : 0 < s.sampleRate) :
+    s.seekBy d = s.seekTo ((s.transport.position : ℝ) / (s.sampleRate : ℝ) + d)
+      ∧ ((s.transport.position : ℝ) / (s.sampleRate : ℝ) + d) * (s.sampleRate : ℝ)
+          = (s.transport.position : ℝ) + d * (s.sampleRate : ℝ) := by
+  refine ⟨rfl, ?_⟩
+  have : (s.sampleRate : ℝ) ≠ 0 := by positivity
+  field_simp
+
+/-- **after 4 further position steps the window holds frames pushed after the seek only** (the
+    window is exactly the last four pushes). -/
+theorem C04_window_refills (r : Resampler ℝ) (a b c d : Option (Frame ℝ)) (i j k l : Nat) :
+    ((((r.pushFrame a i).pushFrame b j).pushFrame c k).pushFrame d l).f0 = ⟨a.getD Frame.zero, i⟩
+      ∧ ((((r.pushFrame a i).pushFrame b j).pushFrame c k).pushFrame d l).f1 = ⟨b.getD Frame.zero, j⟩
+      ∧ ((((r.pushFrame a i).pushFrame b j).pushFrame c k).pushFrame d l).f2 = ⟨c.getD Frame.zero, k⟩
+      ∧ ((((r.pushFrame a i).pushFrame b j).pushFrame c k).pushFrame d l).f3 = ⟨d.getD Frame.zero, l⟩ := by
+  simp [Resampler.pushFrame]
+
+/-- **reported position**: after `on_start_processing`, `handle.position() × sample rate` is the source
+    index recorded with window slot 1 — the frame the listener hears at fraction 0 (the interpolation
+    runs from slot 1 to slot 2), i.e. within one frame of what is heard. -/
+theorem C04_reported_position (s s' : StaticSound ℝ) (hsr : 0 < s.sampleRate) (h : s.onStartProcessing = .ok s') :
+    s'.sharedPosition * (s.sampleRate : ℝ) = (s.resampler.f1.frameIndex : ℝ) := by
+  have hkeep : ∀ a b : StaticSound ℝ, a.readCommands = .ok b → b.sharedPosition = a.sharedPosition := by
+    intro a b hab
+    unfold StaticSound.readCommands at hab
+    obtain ⟨a1, h1, h2⟩ := StaticSound.andThen_ok _ _ _ hab
+    have e1 : a1.sharedPosition = a.sharedPosition := by
+      unfold StaticSound.readLoopCmd at h1
+      rcases StaticSound.applyOptE_ok _ _ _ _ h1 with ⟨_, rfl⟩ | ⟨r, _, hr⟩
+      · rfl
+      · unfold StaticSound.setLoopRegion at hr
+        obtain ⟨n, _, hn⟩ := StaticSound.andThen_ok _ _ _ hr
+        injection hn with hn; subst hn; rfl
+    have hseek : ∀ (u v : StaticSound ℝ) (idx : Nat), u.seekToIndex idx = .ok v → v.sharedPosition = u.sharedPosition := by
+      intro u v idx huv
+      unfold StaticSound.seekToIndex at huv
+      cases hn : numFrames u.frames.size u.slice with
+      | error f => rw [hn] at huv; simp at huv
+      | ok n =>
+        rw [hn] at huv; simp only [] at huv
+        cases ht : u.transport.seekTo idx n with
+        | error f => rw [ht] at huv; simp at huv
+        | ok t =>
+          rw [ht] at huv; simp only [] at huv
+          split at huv
+          · obtain ⟨fo, hfo⟩ := StaticSound.pushFrame_shape _ v huv; rw [hfo]
+          · injection huv with huv; subst huv; rfl
+    unfold StaticSound.readSeekCmds at h2
+    obtain ⟨a2, h3, h4⟩ := StaticSound.andThen_ok _ _ _ h2
+    have e2 : a2.sharedPosition = (StaticSound.readLifeCmds a.cmds a1).sharedPosition := by
+      rcases StaticSound.applyOptE_ok _ _ _ _ h3 with ⟨_, rfl⟩ | ⟨x, _, hx⟩
+      · rfl
+      · exact hseek _ a2 _ hx
+    have e3 : b.sharedPosition = a2.sharedPosition := by
+      rcases StaticSound.applyOptE_ok _ _ _ _ h4 with ⟨_, rfl⟩ | ⟨x, _, hx⟩
+      · rfl
+      · exact hseek a2 b _ hx
+    rw [e3, e2]; exact e1
+  unfold StaticSound.onStartProcessing at h
+  rw [hkeep _ s' h]
+  simp only [ofNat_real, Resampler.currentFrameIndex]
+  have : (s.sampleRate : ℝ) ≠ 0 := by positivity
+  field_simp
+
+/-! ### outside the domain: what the explicit hypotheses exclude (each reproduced on the real code,
+    see notes/C04.md) -/
+
+/-- **empty loop region**: once the play head reaches an empty region `(a, a)` the increment loop never
+    exits (`position -= 0`): the model reports `hang`; kira's audio thread spins. -/
+theorem C04_fault_empty_loop_hangs (t : Transport) (n a : Nat) (hp : t.playing = true)
+    (hl : t.loopRegion = some (a, a)) (hpos : a ≤ t.position + 1) : t.increment n = .error .hang := by
+  unfold increment incWrap
+  simp only [hp, hl, Bool.not_true, Bool.false_eq_true, if_false]
+  unfold wrapDown
+  have : ¬ t.position + 1 < a := by omega
+  simp [this]
+
+/-- **inverted loop region** `(ls, le)` with `le < ls`: `loop_end - loop_start` underflows. -/
+theorem C04_fault_inverted_loop_overflows (t : Transport) (n ls le : Nat) (hp : t.playing = true)
+    (hl : t.loopRegion = some (ls, le)) (hinv : le < ls) (hpos : le ≤ t.position + 1) :
+    t.increment n = .error .overflow := by
+  unfold increment incWrap
+  simp only [hp, hl, Bool.not_true, Bool.false_eq_true, if_false]
+  unfold wrapDown
+  have : ¬ t.position + 1 < le := by omega
+  simp [this, hinv]
+
+/-- **reverse with start position ≥ length**: `num_frames - 1 - start_position` underflows in
+    `Transport::new`, on the caller's thread. -/
+theorem C04_fault_reverse_start_overflows (start n : Nat) (lr : Option (Nat × Nat)) (h : n ≤ start) :
+    Transport.new start lr true n = .error .overflow := by
+  unfold Transport.new
+  have : ¬ start + 1 ≤ n := by omega
+  simp [this]
+
+/-- **slice reaching outside the data**: the lookup indexes out of bounds. -/
+theorem C04_fault_slice_outside_data (frames : Array (Frame ℝ)) (a b i : Nat) (hab : a ≤ b) (hi : i < b - a)
+    (hout : frames.size ≤ i + a) : frameAtIndex i frames (some (a, b)) = .error .indexOOB := by
+  unfold frameAtIndex numFrames
+  have h1 : ¬ b - a ≤ i := by omega
+  simp [hab, h1, hout]
+
+/-- non-vacuity of the in-domain hypotheses: a 3-frame sound, slice `[1,3)`, loop `[0,2)`. -/
+example : (⟨{}, 1, #[⟨1, 1⟩, ⟨2, 2⟩, ⟨3, 3⟩], some (1, 3), false, SoundCore.new .immediate none, Resampler.new 0,
+    ⟨0, some (0, 2), true⟩, 0, Parameter.new (.fixed 0) 0, Parameter.new (.fixed 1) 1, Parameter.new (.fixed 0) 0, 0⟩
+      : StaticSound ℝ).InDomain := by
+  unfold StaticSound.InDomain StaticSound.SliceOk Transport.ValidLoop StaticSound.nFrames; simp
 
 end K
